@@ -95,3 +95,22 @@ fn c05_explicit_optimize_keeps_verdicts() {
     for (a, b) in before.iter().zip(after.iter()) { assert_eq!(a, b, "explicit optimize() changed an answer"); }
     assert!(before.iter().any(|x| x.contains("rw=Some")) && before.iter().any(|x| x.contains("m=true")));
 }
+
+/// OBL C05.witness.invalid_regex_in_fused_set
+#[test]
+fn c05_a_regex_that_does_not_compile_does_not_disable_the_rules_it_is_fused_with() {
+    // regression input of fix 978b202 (found by a differential fuzz run of optimised vs unoptimised engines): full-regex rules with equal
+    // options fuse into one regex set; an expression that does not compile matches nothing as a rule of its own and must not change what
+    // the others match
+    for rules in [vec!["/s/", "/)ds/"], vec!["/)ds/", "/s/"], vec!["/s/", "/)ds/", "/t(/"], vec!["/)ds/", "/t(/"], vec!["/s/$script", "/)ds/$script", "/q[/$script"], vec!["@@/s/", "@@/)ds/", "/x/"]] {
+        let plain = engine(&rules, false);
+        let optimised = engine(&rules, true);
+        for url in ["https://x.test/s", "https://x.test/q", "https://x.test/ds", "https://x.test/"] {
+            let req = Request::new(url, "https://news.example/", "script").unwrap();
+            let (p, o) = (plain.check_network_request(&req), optimised.check_network_request(&req));
+            assert_eq!((p.matched, p.exception.is_some()), (o.matched, o.exception.is_some()), "{:?} on {}", rules, url);
+        }
+    }
+    let req = Request::new("https://x.test/s", "https://news.example/", "script").unwrap();
+    assert!(engine(&["/s/", "/)ds/"], true).check_network_request(&req).matched);
+}
